@@ -84,17 +84,6 @@ func (r *shareRun) acc(i int) sdk.AccAddress { return r.c.Accs[i].Addr }
 func (r *shareRun) saver(v int) sdk.AccAddress { return sctypes.RewardSaverAddress(r.vals[v]) }
 func (r *shareRun) shareDenom(v int) string   { return sctypes.NonVotingShareTokenDenom(r.vals[v]) }
 
-func coinsStr(cs sdk.Coins) string {
-	if len(cs) == 0 {
-		return "-"
-	}
-	parts := []string{}
-	for _, c := range cs.Sort() {
-		parts = append(parts, c.Denom+":"+c.Amount.String())
-	}
-	return strings.Join(parts, ",")
-}
-
 // canonical state: every balance the model predicts
 func (r *shareRun) show() string {
 	var sb strings.Builder
